@@ -41,7 +41,7 @@ def run(ck):
     ta = TimeAxis(0.0, 2000, 1.0)
     lines, impl = [], []
 
-    def make(n, energies, coup, baths, T):
+    def make(n, energies, coup, baths, T, refused_addition_first=False):
         with energy_units("1/cm"):
             mols = []
             for k in range(n):
@@ -51,7 +51,14 @@ def run(ck):
                     p = dict(ftype="OverdampedBrownian", reorg=lam, cortime=par, T=T, matsubara=60)
                 else:
                     p = dict(ftype="UnderdampedBrownian", reorg=lam, freq=par[0], gamma=par[1], T=T)
-                m.set_transition_environment((0, 1), CorrelationFunction(ta, p))
+                cf = CorrelationFunction(ta, p)
+                if refused_addition_first:
+                    # the script tried to add a function of another temperature to this bath function, was refused, and goes on with it
+                    try:
+                        cf += CorrelationFunction(ta, dict(ftype="OverdampedBrownian", reorg=55.0, cortime=70.0, T=(77.0 if T != 77.0 else 300.0), matsubara=60))
+                    except Exception:
+                        pass
+                m.set_transition_environment((0, 1), cf)
                 mols.append(m)
             agg = Aggregate(mols)
             for i in range(n):
@@ -97,10 +104,20 @@ def run(ck):
             coup = [[0.0, 60.0], [60.0, 0.0]]
             baths = [("OB", 40.0, 100.0), ("OB", 20.0, 60.0)]
             far = False
+        if s == 3:
+            # in every run: a coupled trimer with three different overdamped baths whose transition frequencies lie in the window where the
+            # golden rule is evaluated (this is also the system whose bath functions went through a refused addition, below)
+            n, T = 3, 300.0
+            energies = [12000.0, 12180.0, 12330.0]
+            coup = [[0.0, 80.0, 30.0], [80.0, 0.0, -80.0], [30.0, -80.0, 0.0]]
+            baths = [("OB", 40.0, 100.0), ("OB", 80.0, 60.0), ("OB", 20.0, 150.0)]
+            far = False
         inp = {"sites": n, "energies_cm": energies, "couplings_cm": coup, "baths": baths, "T": T}
         unequal = len({b[1] for b in baths}) > 1
         try:
-            agg = make(n, energies, coup, baths, T)
+            refused_first = (s % 4 == 3)
+            inp["bath_functions_went_through_a_refused_addition"] = refused_first
+            agg = make(n, energies, coup, baths, T, refused_addition_first=refused_first)
             ham = agg.get_Hamiltonian()
             sbi = agg.get_SystemBathInteraction()
             RR = RedfieldRateMatrix(ham, sbi)
@@ -216,6 +233,39 @@ def run(ck):
                         "from those of the aggregate's own system-bath interaction with the same bath functions", inp, float(numpy.abs(R3 - R).max() / scale))
         except Exception as e:
             ck.fail("raises:RedfieldRateMatrix:hand-built-sbi", "construction from a hand-built system-bath interaction raised %r" % (e,), inp)
+        # the tensor built with a cut-off time on axes of different step (the cut-off is a time, not a number of points): same downhill
+        # rates as without it when the cut-off lies where the correlation functions have decayed
+        if s % 3 == 0 and all(bt[0] == "OB" for bt in baths) and not far:
+            try:
+                for stepc in (0.5, 2.0):
+                    tac = TimeAxis(0.0, int(1200.0 / stepc), stepc)
+                    with energy_units("1/cm"):
+                        molsc = []
+                        for k in range(n):
+                            mc = Molecule([0.0, energies[k]])
+                            mc.set_transition_environment((0, 1), CorrelationFunction(tac, dict(ftype="OverdampedBrownian", reorg=baths[k][1], cortime=baths[k][2], T=T)))
+                            molsc.append(mc)
+                        aggc = Aggregate(molsc)
+                        for i in range(n):
+                            for j in range(i + 1, n):
+                                aggc.set_resonance_coupling(i, j, coup[i][j])
+                    aggc.build()
+                    Rn, hn = aggc.get_RelaxationTensor(tac, relaxation_theory="standard_Redfield")
+                    Rc, hc_ = aggc.get_RelaxationTensor(tac, relaxation_theory="standard_Redfield", relaxation_cutoff_time=900.0)
+                    with eigenbasis_of(hn):
+                        rn = numpy.real(numpy.array([[Rn.data[a, a, b, b] for b in range(Na)] for a in range(Na)]))
+                    with eigenbasis_of(hc_):
+                        rc = numpy.real(numpy.array([[Rc.data[a, a, b, b] for b in range(Na)] for a in range(Na)]))
+                    scc = float(numpy.abs(rn).max()) or 1.0
+                    ck.case(("redfield-cutoff", s, stepc), nontrivial=True, kind="redfield", sites=n, T=T, far=far, unequal_lambda=unequal)
+                    dvc = float(numpy.abs(rn - rc).max()) / scc
+                    ck.resid("population rates of the tensor with a 900 fs cut-off vs without (relative)", dvc)
+                    if dvc > 2e-2:
+                        ck.fail("golden:tensor:cutoff-time", "population-transfer elements of the Redfield tensor with relaxation_cutoff_time=900 fs (axis step %g fs) "
+                                "differ from those without a cut-off although the bath correlation functions have decayed long before" % stepc,
+                                dict(inp, axis_step=stepc), dvc, 2e-2)
+            except Exception as e:
+                ck.fail("raises:tensor:cutoff-time", "tensor with a cut-off time raised %r" % (e,), inp)
         # ---------------- time-dependent rates: probability conservation at every time -------------------------------
         if s % 3 == 0:
             try:
@@ -302,15 +352,17 @@ def run(ck):
     for trial in range(ck.n(10, 60)):
         T = rng.choice([20.0, 77.0, 300.0, 600.0])
         comps = []
-        for _ in range(rng.choice([1, 1, 2, 3])):
+        for ic_ in range(rng.choice([1, 1, 2, 3])):
             kind = rng.choice(["OverdampedBrownian", "UnderdampedBrownian", "Underdamped", "B777", "CP29"])
+            if ic_ == 0:
+                kind = ("B777", "OverdampedBrownian", "B777", "UnderdampedBrownian", "CP29", "Underdamped")[trial % 6]    # every form in every run
             lam = rng.choice([10.0, 40.0, 120.0])
             if kind == "OverdampedBrownian":
                 comps.append(dict(ftype=kind, reorg=lam, cortime=rng.choice([30.0, 100.0]), T=T))
             elif kind in ("UnderdampedBrownian", "Underdamped"):
                 comps.append(dict(ftype=kind, reorg=lam, freq=rng.choice([150.0, 400.0]), gamma=rng.choice([20.0, 50.0]), T=T))
             elif kind == "B777":
-                comps.append(dict(ftype=kind, reorg=lam, gamma=30.0, T=T, alternative_form=rng.random() < 0.5))
+                comps.append(dict(ftype=kind, reorg=lam, gamma=30.0, T=T, alternative_form=(rng.random() < 0.5) if ic_ else (trial % 6 == 0)))
             else:
                 comps.append(dict(ftype=kind, reorg=lam, gamma=30.0, T=T))
         inp = {"components": comps, "T": T, "axis": [tb.length, tb.step]}
